@@ -122,4 +122,24 @@ def holdValid (own : Nat → List Nat) (R : Rings) : Hold.Op → Bool
   | .transfer o i _ => decide (i < (own o).length)
   | .swap _ _ => true
 
+/-- "no callback lets go of its own connection", checked along the run of the call loop: the one thing a callback may not
+do (its connection object — and with it the `fcppt::function` that is executing — would be destroyed under its feet, and
+`++it` would read the freed hook).  A precondition on the caller's callbacks, not on the library. -/
+def loopSafe (act : Nat → Hold.Act) (h : Node) : Nat → Hold.State → Node → Bool
+  | 0, _, _ => true
+  | fuel + 1, st, cur =>
+    if cur = h then true else
+    match cur with
+    | .head _ => true
+    | .elem x =>
+      match st.sig.conn x with
+      | none => true
+      | some c =>
+        (match act c.callback with
+          | .reset o => !(st.own o).contains x
+          | _ => true) &&
+        (match Hold.runAct st (act c.callback) with
+          | .ok st' => loopSafe act h fuel st' (st'.sig.store.next cur)
+          | .error _ => true)
+
 end Fcppt.C11.Spec
